@@ -91,7 +91,7 @@ impl Prop for C05 {
     }
 
     fn strategy(ctx: &Ctx) -> BoxedStrategy<Case> {
-        let max_exp = ctx.param_u64("max_exp", if ctx.thorough { 22 } else { 20 }) as u32;
+        let max_exp = ctx.param_u64("max_exp", if ctx.thorough { 23 } else { 22 }) as u32;
         (proptest::collection::vec(region_strategy(max_exp), 1..=8), proptest::collection::vec(0u16..600, 9), any::<bool>(), any::<bool>(), proptest::bool::weighted(0.3), prop_oneof![3 => Just(0u8), 2 => 2u8..=6])
             .prop_map(|(regions, pads, in_child, second_hop, multi_packet, threads)| Case { regions, pads, in_child, second_hop, multi_packet, threads })
             .boxed()
@@ -100,7 +100,8 @@ impl Prop for C05 {
     fn enumerated(ctx: &Ctx) -> Vec<Case> {
         let p = page();
         let mut v = vec![];
-        let mut lens = vec![0u32, 1, 2, p - 1, p, p + 1, 2 * p - 1, 2 * p, 2 * p + 1, 3 * p + 7];
+        // ... and beyond the huge-page size, not a multiple of it
+        let mut lens = vec![0u32, 1, 2, p - 1, p, p + 1, 2 * p - 1, 2 * p, 2 * p + 1, 3 * p + 7, (2 << 20) + 1, (3 << 20) - 1, (4 << 20) + p + 1];
         if ctx.thorough && ctx.param("big") == Some("1") {
             lens.extend([(8 << 20) + 1, 32 << 20]);
         }
@@ -112,7 +113,7 @@ impl Prop for C05 {
             }
         }
         // all boundary lengths together in one message, in order
-        v.push(Case { regions: lens.iter().take(8).enumerate().map(|(i, &len)| Region { len, seed: 77 + i as u64, fill: None, clones: 1, send_copy: 1, same_as: None, same_object: false }).collect(), pads: vec![3; 9], in_child: true, second_hop: true, multi_packet: true, threads: 0 });
+        v.push(Case { regions: lens.iter().take(8).enumerate() /* the small boundary lengths */.map(|(i, &len)| Region { len, seed: 77 + i as u64, fill: None, clones: 1, send_copy: 1, same_as: None, same_object: false }).collect(), pads: vec![3; 9], in_child: true, second_hop: true, multi_packet: true, threads: 0 });
         // equal contents twice in one message: as two regions, and as one region referenced twice
         for same_object in [false, true] {
             for in_child in [false, true] {
@@ -317,6 +318,7 @@ fn run(case: &Case) -> Result<Outcome, Failure> {
     if let Some(child) = child {
         drop(originals);
         drop(extra_clones);
+        let _pressure: Vec<IpcSharedMemory> = regions.iter().map(|r| node::make_region(r.len, r.seed ^ 0x5a5a_5a5a, r.fill.map(|b| !b))).collect();
         let sent = tx.send(Node::U32(0xd0e));
         ensure!(sent.is_ok(), "region:send-failed", "drop notice failed: {:?}", sent.map_err(|e| e.to_string()));
         drop(tx);
@@ -349,6 +351,9 @@ fn run(case: &Case) -> Result<Outcome, Failure> {
     drop(originals);
     drop(extra_clones);
     drop(tx);
+    // new regions of the very same lengths, other contents, created by the thread that just dropped
+    // the originals: a backing object that is recycled instead of released would be overwritten
+    let _pressure: Vec<IpcSharedMemory> = regions.iter().map(|r| node::make_region(r.len, r.seed ^ 0x5a5a_5a5a, r.fill.map(|b| !b))).collect();
     for (i, r) in regs.iter().enumerate() {
         check("after the sender's copies and the channel were dropped", i, r, &wants[i])?;
     }
